@@ -284,6 +284,13 @@ void check_single(Mat<T, N, N> const &a, int const mode, Vec<T, N> const &v, T c
     vmat<T, N, N> w{view_storage<T, N * N>(buf.data())};
     w *= k;
     if (to_arr(s) != r_scale(a, k) || buf != r_scale(a, k)) verif::fail("matrix::operator*=|vs-reference|" + L, show_arr(a, N) + " *= " + std::to_string(static_cast<long long>(k)));
+    // the scalar refers to an element of the matrix itself (m *= m.m00())
+    smat<T, N, N> s2(make_smat<T, N, N>(a));
+    s2 *= s2.storage()[0];
+    Mat<T, N, N> buf2 = a;
+    vmat<T, N, N> w2{view_storage<T, N * N>(buf2.data())};
+    w2 *= w2.storage()[0];
+    if (to_arr(s2) != r_scale(a, a[0]) || buf2 != r_scale(a, a[0])) verif::fail("matrix::operator*=|scalar-aliases-an-element|" + L, show_arr(a, N) + " *= its own first element");
   }
   // map, structure_cast
   {
